@@ -193,6 +193,8 @@ def build(cfg, rng):
     fam = cfg["fam"]
     sim.integrator = fam
     sim.dt = 0.03 + 0.01 * rng.random()
+    if rng.random() < 0.35 and fam != "whfast512":
+        sim.dt = -sim.dt              # backward integrations run the same words
     if fam == "whfast":
         w = sim.ri_whfast
         w.coordinates = cfg["coord"]
